@@ -150,8 +150,24 @@ func cmdC14(tier string, seed int64, out, statsOut, replay string) {
 		writeDesc(id, map[string]string{"kind": "split", "schema": schema, "version": v, "prerelease": pre, "metadata": meta})
 		// the same through the front door: a YAML document, Parse, Get, WithDefaults (what `nfpm package` does);
 		// reported as a case of its own when the document parses and the outcome differs from the direct one
-		if doc, err := yaml.Marshal(map[string]string{"name": "p", "arch": "amd64", "version": v, "prerelease": pre, "version_metadata": meta, "version_schema": schema}); err == nil {
-			if cfg, err := nfpm.ParseWithEnvMapping(bytes.NewReader(doc), func(string) string { return "" }); err == nil {
+		for vi, viaEnv := range []bool{false, true} {
+			fields := map[string]string{"name": "p", "arch": "amd64", "version": v, "prerelease": pre, "version_metadata": meta, "version_schema": schema}
+			mapping := func(string) string { return "" }
+			if viaEnv {
+				// the same values supplied through the environment: what is split is the expanded version
+				if strings.Contains(v+pre+meta, "$") {
+					continue
+				}
+				// (version and prerelease are documented as expandable; version_metadata is not)
+				fields["version"], fields["prerelease"] = "${VERIF_V}", "${VERIF_P}"
+				mapping = func(k string) string { return map[string]string{"VERIF_V": v, "VERIF_P": pre}[k] }
+			}
+			doc, err := yaml.Marshal(fields)
+			if err != nil {
+				continue
+			}
+			id := id + []string{"", "-env"}[vi]
+			if cfg, err := nfpm.ParseWithEnvMapping(bytes.NewReader(doc), mapping); err == nil {
 				if got, err := cfg.Get("deb"); err == nil {
 					i2 := nfpm.WithDefaults(got)
 					if i2.Version != info.Version || i2.Prerelease != info.Prerelease || i2.VersionMetadata != info.VersionMetadata {
